@@ -5,8 +5,8 @@ cd /verif
 root=${1:-/tmp/seed2}
 export VERIF_OUT=/tmp/seedruns/out
 PROPS=${PROPS:-"C01 C08 C09 C10 C13 C17 C18 C06 C16 C20"}
-for d in $root/B*/_seed/*/; do
-  id=$(echo $d | sed 's:.*/\(B[0-9]\)/_seed/\([0-9]*\)/:\1-\2:')
+for d in $root/B*/_seed/*/ $root/B*-*/; do
+  id=$(echo $d | sed "s:.*/\(B[0-9]\)/_seed/\([0-9]*\)/:\1-\2:; s:.*/\(B[0-9]*-[0-9]*\)/$:\1:")
   git -C /repo checkout -q -- . ; git -C /repo clean -fdq
   if ! git -C /repo apply $d/patch.diff 2>/dev/null; then echo "$id APPLY-FAIL"; continue; fi
   res=""
